@@ -21,3 +21,6 @@ def run(chk, args):
         {"family": "sam", "ns": "3,4", "count": 6 if q else 30, "length": 8, "reps": "1,10,100,1000"},
         {"family": "float_sam", "ns": "3,4,5", "count": 15 if q else 100, "length": 10, "reps": "0,1,2,10"},
     ])
+    from common_bounds import replay_bounds_behaviours
+    replay_bounds_behaviours(chk, "SAM3", {"N": 3, "cls": "SAM", "sing": "m3to0", "slacks": "m3to0", "computers": {"sam"}, "reps": {0, 1, 2, 3}}, 50 if q else 400)
+    replay_bounds_behaviours(chk, "SAM4", {"N": 4, "cls": "SAM", "sing": "m2to0", "slacks": "m2to0", "computers": {"sam"}, "reps": {0, 1, 3}}, 30 if q else 300, 20)
